@@ -245,7 +245,7 @@ def numbers(objs):
     return out
 
 
-def build_doc(objs, refs):
+def build_doc(objs, refs, skip=0):
     """objs: tuple of kinds; refs: tuple of (cmd, target index or -1 (dangling), slot) ;
     slots: 0..k = before object i / after the last; ('in', i) = inside object i"""
     k = len(objs)
@@ -257,7 +257,8 @@ def build_doc(objs, refs):
     for i, kind in enumerate(objs):
         parts.append(' '.join(slot_text.get(i, [])))
         src = KINDS[kind].replace('{L}', '\\label{zz%d}' % i).replace('{I}', ' '.join(slot_text.get(('in', i), [])))
-        parts.append(src)
+        if i >= skip:       # (the previous run of a re-run case did not have the first `skip` objects yet)
+            parts.append(src)
     parts.append(' '.join(slot_text.get(k, [])))
     return ('\\documentclass{article}\\newtheorem{zzthm}{Theorem}\\begin{document}x ' + ' '.join(parts) + ' y\\end{document}')
 
@@ -341,17 +342,54 @@ def canon_name(name, style):
     return 'zz' + m.group(1) if m else name
 
 
+def parse_rerun(objs, refs, src):
+    """the document is processed for the second time in its directory (plasTeX.Compile.parse, as the command line does):
+    the first run, rendered with XHTML so that it leaves its .paux file behind, did not have the first two objects yet"""
+    import os, shutil, tempfile
+    from plasTeX.Config import defaultConfig
+    import plasTeX.Compile
+    tmp = tempfile.mkdtemp(prefix='vp-c09-')
+    old = os.getcwd()
+    try:
+        os.chdir(tmp)
+        for run_, text in enumerate((build_doc(objs, refs, skip=2), src)):
+            with open('job.tex', 'w') as f:
+                f.write(text)
+            config = defaultConfig()
+            config['images']['imager'] = 'none'
+            config['images']['vector-imager'] = 'none'
+            config['general']['renderer'] = 'XHTML'
+            config['files']['log'] = False
+            if run_ == 0:
+                plasTeX.Compile.run('job.tex', config)
+                os.chdir(tmp)
+                if not os.path.exists('job.paux'):
+                    raise RuntimeError('first run left no job.paux')
+            else:
+                tex = plasTeX.Compile.parse('job.tex', config)
+                return tex.ownerDocument
+    finally:
+        os.chdir(old)
+        shutil.rmtree(tmp, ignore_errors=True)
+
+
 def judge_doc(objs, refs, style='plain'):
     from plasTeX.TeX import TeX
+    rerun = style == 'rerun'
+    if rerun:
+        style = 'plain'
     src = restyle(build_doc(objs, refs), style)
     cn = lambda x: canon_name(x, style)
     state.reset()
     try:
-        with core.time_limit(20):
-            tex = TeX()
-            tex.ownerDocument.context.warnOnUnrecognized = False
-            tex.input(src)
-            doc = tex.parse()
+        with core.time_limit(60 if rerun else 20):
+            if rerun:
+                doc = parse_rerun(objs, refs, src)
+            else:
+                tex = TeX()
+                tex.ownerDocument.context.warnOnUnrecognized = False
+                tex.input(src)
+                doc = tex.parse()
     except core.Timeout:
         return 'violation', 'timeout', src
     except Exception as e:
@@ -485,6 +523,10 @@ def run(tier, seed, rep):
                                     and not any(o in ('sec', 'secafter') for o in objs[:objs.index('sub')])):
                 continue    # a subsection needs a section before it for the expected number to be defined
             blocks.append((objs, 2 if k < 3 else 1))
+    # second run in the same directory: two unlabelled-in-the-first-run objects in front shift every number
+    for k_ in kinds:
+        if k_ != 'sub':
+            blocks.append((('sec', 'eq', k_), 1, 'rerun'))
     # spellings of the label name: every single object (and a few pairs) with one reference, each spelling
     for style in ('under', 'caret', 'macro'):
         for objs in [(k_,) for k_ in kinds if k_ != 'sub'] + [('sec', 'eq'), ('eq', 'row2'), ('sec', 'sub')]:
